@@ -1,6 +1,66 @@
-(* Properties_C13.v -- filled from EngineRead / EngineSteps when they land. *)
-From LCDB Require Import Base Engine EngineSpec EngineRead.
-Theorem C13_get_is_newest_visible : forall ucmp, total_order ucmp -> forall s k q,
-  inv_b ucmp s = true -> get ucmp s k q = result_of (best ucmp (all_entries s) k q).
-Proof. exact get_correct. Qed.
-Print Assumptions C13_get_is_newest_visible.
+(* Properties_C13.v -- theorems for property C13, allocator part (file numbers).
+   Statements only; the proofs are in EngineTop.v. *)
+From LCDB Require Import Base Engine EngineSpec EngineRead EngineSteps EngineTop.
+Local Open Scope N_scope.
+
+(* live table numbers are below the counter and pairwise distinct *)
+Theorem C13_numbers_fresh : forall ucmp, total_order ucmp -> forall ops s,
+  run ucmp init_state ops = Some s ->
+  (forall f, In f (concat (levels s)) -> fnum f < next_file s) /\
+  NoDup (map fnum (concat (levels s))).
+Proof. exact numbers_fresh. Qed.
+Print Assumptions C13_numbers_fresh.
+
+(* the counter never goes back while the database is open *)
+Theorem C13_next_file_monotone : forall ucmp s o s',
+  step ucmp s o = Some s' -> not_reopen o = true -> next_file s <= next_file s'.
+Proof. exact next_file_monotone. Qed.
+Print Assumptions C13_next_file_monotone.
+
+(* while open, a created table gets a number the allocator had not handed out *)
+Theorem C13_created_numbers_alloc : forall ucmp, total_order ucmp -> forall s o s',
+  inv_b ucmp s = true -> step ucmp s o = Some s' -> not_reopen o = true ->
+  forall f, In f (concat (levels s')) ->
+  In f (concat (levels s)) \/ next_file s <= fnum f < next_file s'.
+Proof. exact created_numbers_alloc. Qed.
+Print Assumptions C13_created_numbers_alloc.
+
+(* every step, reopen included: a created table is numbered above every table that was
+   live before the step, and below the new counter *)
+Theorem C13_created_numbers_fresh : forall ucmp, total_order ucmp -> forall s o s',
+  inv_b ucmp s = true -> step ucmp s o = Some s' ->
+  forall f, In f (concat (levels s')) ->
+  In f (concat (levels s)) \/
+  ((forall g, In g (concat (levels s)) -> fnum g < fnum f) /\ fnum f < next_file s').
+Proof. exact created_numbers_fresh. Qed.
+Print Assumptions C13_created_numbers_fresh.
+
+(* ... so never the number of a file that was live *)
+Theorem C13_created_numbers_not_live : forall ucmp, total_order ucmp -> forall s o s',
+  inv_b ucmp s = true -> step ucmp s o = Some s' ->
+  forall f, In f (concat (levels s')) -> ~ In f (concat (levels s)) ->
+  forall g, In g (concat (levels s)) -> fnum g <> fnum f.
+Proof. exact created_numbers_not_live. Qed.
+Print Assumptions C13_created_numbers_not_live.
+
+(* along a whole run without reopen *)
+Theorem C13_run_created_numbers_fresh : forall ucmp, total_order ucmp -> forall ops s s',
+  inv_b ucmp s = true -> run ucmp s ops = Some s' -> no_reopen ops = true ->
+  next_file s <= next_file s' /\
+  forall f, In f (concat (levels s')) ->
+            In f (concat (levels s)) \/ next_file s <= fnum f < next_file s'.
+Proof. exact run_created_numbers_fresh. Qed.
+Print Assumptions C13_run_created_numbers_fresh.
+
+(* the unrestricted forms fail for OReopen: the model's reopen restarts the counter from
+   the MANIFEST value, which only has to exceed the live table numbers *)
+Theorem C13_next_file_not_monotone_across_reopen :
+  ~ (forall ucmp s o s', step ucmp s o = Some s' -> next_file s <= next_file s').
+Proof. exact next_file_monotone_statement_false. Qed.
+Print Assumptions C13_next_file_not_monotone_across_reopen.
+
+Theorem C13_reopen_may_number_below_old_counter :
+  ~ (forall ucmp s o s', inv_b ucmp s = true -> step ucmp s o = Some s' ->
+     forall f, In f (concat (levels s')) -> ~ In f (concat (levels s)) -> next_file s <= fnum f).
+Proof. exact created_numbers_fresh_statement_false. Qed.
+Print Assumptions C13_reopen_may_number_below_old_counter.
